@@ -17,8 +17,9 @@ anonymous members**.  Mirrors the code as it is at /repo HEAD:
     alignment(struct/union) = max(alignment(field))  (1 without fields)
     offsetof(typ, field) = bit_offsets[field] // 8
 
-`finalAlign` is the alignment (in bytes) used by the final padding step; see the `Legacy`
-namespace for the code before the C01 repair (padding to 8 bits only; union size not rounded).
+This is the code after the C01 repair 755c1e7 (size rounded up to the alignment); `Legacy.structSize`
+/ `Legacy.unionSize` keep the final step of the code before it (padding to 8 bits only; union size not
+rounded) for the Lean-proved witnesses.
 -/
 namespace Model.CLayout
 
@@ -71,10 +72,13 @@ mutual
     | .prim p => p.size
     | .arr e n => sizeof e * n
     | .struct fs =>
+      -- layout_struct: ...; bit_offset += required_padding(bit_offset, 8 * self.alignment(typ)); byte_size = bit_offset // 8
       let bitOffset := structBits fs 0
-      (bitOffset + requiredPadding bitOffset 8) / 8
+      (bitOffset + requiredPadding bitOffset (8 * (if fs.isEmpty then 1 else maxAlign fs))) / 8
     | .union fs =>
-      if fs.isEmpty then 0 else maxSize fs
+      -- size = max(sizeof(field)); size += required_padding(size, self.alignment(typ))
+      if fs.isEmpty then 0
+      else maxSize fs + requiredPadding (maxSize fs) (if fs.isEmpty then 1 else maxAlign fs)
   /-- `CContext.alignment` -/
   def alignment : LTy → Nat
     | .prim p => p.align
@@ -112,5 +116,18 @@ def offsets : LTy → List Nat
   | .struct fs => (structBitOffsets fs 0).map (· / 8)
   | .union fs => (unionBitOffsets fs).map (· / 8)
   | _ => []
+
+/-! ### the final step before commit 755c1e7 (kept for the witnesses of the repaired defect) -/
+namespace Legacy
+
+/-- `sizeof(struct)`: `bit_offset += required_padding(bit_offset, 8); byte_size = bit_offset // 8` -/
+def structSize (fs : Fields) : Nat :=
+  let bitOffset := structBits fs 0
+  (bitOffset + requiredPadding bitOffset 8) / 8
+
+/-- `sizeof(union)`: `max(sizeof(field))` -/
+def unionSize (fs : Fields) : Nat := if fs.isEmpty then 0 else maxSize fs
+
+end Legacy
 
 end Model.CLayout
